@@ -31,7 +31,8 @@ class TealConditionalBlock(TealBlock):
     def replaceOutgoing(self, oldBlock: TealBlock, newBlock: TealBlock) -> None:
         if self.trueBlock is oldBlock:
             self.trueBlock = newBlock
-        elif self.falseBlock is oldBlock:
+        # both edges may lead to the same block (e.g. an If whose arms are both empty)
+        if self.falseBlock is oldBlock:
             self.falseBlock = newBlock
 
     def __repr__(self) -> str:
